@@ -12,6 +12,8 @@ namespace CtyModel
 namespace Refine
 open NumCmp
 
+variable [ExactOracle]
+
 /-! ## vocabulary -/
 
 /-- constraints on the range (everything but `NotNull` / `Null`) -/
@@ -39,12 +41,14 @@ def RefineCall.exclusiveInfinite : RefineCall → Bool
 
 /-! ## witnesses inside a consistent interval -/
 
+omit [ExactOracle] in
 theorem lt_posInf {m : Num} (h : m ≠ .inf false) : Lt m (.inf false) := by
   unfold Lt
   have h1 := cmp_posInf m
   have h2 := mt (cmp_posInf_eq m).mp h
   omega
 
+omit [ExactOracle] in
 theorem negInf_lt {m : Num} (h : m ≠ .inf true) : Lt (.inf true) m := by
   have h1 := cmp_negInf m
   have h2 := mt (cmp_negInf_eq m).mp h
@@ -93,14 +97,17 @@ theorem upper_witness {m : Num} {incl : Bool} {lo : Option Bound}
 
 /-! ## γ of a number / length / string refinement, element-wise -/
 
+omit [ExactOracle] in
 theorem γ_num_num (t : Ty) (n : Tri) (lo hi : Option Bound) (y0 y : Num) :
     γ t (.num n lo hi) (.num y) =
       (Conc.kindOk t (.num y0) && nullOk n (.num y0) && (aboveLower lo y && belowUpper hi y)) := rfl
 
+omit [ExactOracle] in
 theorem γ_coll_coll (t : Ty) (n : Tri) (lo hi : Int) (k0 k : Nat) :
     γ t (.coll n lo hi) (.coll k) =
       (Conc.kindOk t (.coll k0) && nullOk n (.coll k0) && (decide (lo ≤ (k : Int)) && decide ((k : Int) ≤ hi))) := rfl
 
+omit [ExactOracle] in
 theorem γ_str_str (t : Ty) (n : Tri) (p : String) (s0 s : List UInt8) :
     γ t (.str n p) (.str s) =
       (Conc.kindOk t (.str s0) && nullOk n (.str s0) && (bytes p).isPrefixOf s) := rfl
@@ -203,6 +210,7 @@ theorem stepNumUpper_rejects {a : NumArg} {incl : Bool}
           obtain ⟨y, hy1, hy2⟩ := upper_witness hcons hinf
           exact H y hy1 (upperTighter_true ht hy2) (by rw [argUpper_of_num? hm]; exact hy2)
 
+omit [ExactOracle] in
 theorem stepLenLower_rejects {n : Int}
     (h1 : ∃ x, x ≠ .null ∧ γB b x = true)
     (h2 : ∀ x, x ≠ .null → (γB b x && den (.lenLower n) x) = false) (b' : Builder) :
@@ -228,6 +236,7 @@ theorem stepLenLower_rejects {n : Int}
     · exact H k0 hlo0 hhi0 (by omega)
     · exact H n.toNat (by omega) (by omega) (by omega)
 
+omit [ExactOracle] in
 theorem stepLenUpper_rejects {n : Int} (hlen : b.wip.lenOk = true)
     (h1 : ∃ x, x ≠ .null ∧ γB b x = true)
     (h2 : ∀ x, x ≠ .null → (γB b x && den (.lenUpper n) x) = false) (b' : Builder) :
@@ -255,6 +264,7 @@ theorem stepLenUpper_rejects {n : Int} (hlen : b.wip.lenOk = true)
     · exact H k0 hlo0 hhi0 (by omega)
     · exact H lo.toNat (by omega) (by omega) (by omega)
 
+omit [ExactOracle] in
 theorem stepPrefix_rejects {p : String} (c : RefineCall) (hc : c = .stringPrefix p ∨ c = .stringPrefixFull p)
     (h1 : ∃ x, x ≠ .null ∧ γB b x = true)
     (h2 : ∀ x, x ≠ .null → (γB b x && den c x) = false) (b' : Builder) :
@@ -287,9 +297,12 @@ end
 
 /-! ## rejection for `step` -/
 
+omit [ExactOracle] in
 theorem exclusiveInfinite_lower_incl (a : NumArg) : (RefineCall.numLower a true).exclusiveInfinite = false := rfl
+omit [ExactOracle] in
 theorem exclusiveInfinite_upper_incl (a : NumArg) : (RefineCall.numUpper a true).exclusiveInfinite = false := rfl
 
+omit [ExactOracle] in
 /-- the shared shape of the two-call shorthands: if nothing non-null satisfies both
 constraints, one of the two calls is not accepted -/
 theorem two_calls_reject {b : Builder} {c1 c2 : RefineCall}
